@@ -11,13 +11,13 @@ import (
 )
 
 type blockObs struct {
-	s    *Sim
-	spec *BlockSpec
-	pend []pendingTx
-	st   *Step
-	pre  *Dump
-	cur  *Dump
-	preView *View
+	s         *Sim
+	spec      *BlockSpec
+	pend      []pendingTx
+	st        *Step
+	pre       *Dump
+	cur       *Dump
+	preView   *View
 	beginView *View
 }
 
